@@ -292,10 +292,16 @@ fn powf_case(m: &mut M, r: &mut Rng) {
         m.call("elem", "powf", *r.pick(&["inh", "Float", "Pow_vv", "Pow_rr"]), Some(6), &[A::R(2), A::R(3), A::R(4)]);
         return;
     }
-    match r.below(8) {
+    match r.below(9) {
         0 => {
             let z = if r.coin() { 0.0 } else { -0.0 };
             m.load(2, z, 0.0);
+        }
+        8 => {
+            // dense around +-1: 1 +- 2^-j (for j > 53 the high word is exactly 1 and the low word is not zero)
+            let j = r.range(1, 105) as i32;
+            let s0 = if r.below(4) == 0 { -1.0 } else { 1.0 };
+            load_sum(m, 2, s0, sgn(r) * pow2(-j) * (1.0 + r.below(8) as f64 / 8.0));
         }
         1 | 2 => {
             let h = -log_uniform(r, -30, 30);
@@ -476,6 +482,34 @@ fn trig_arg(m: &mut M, r: &mut Rng, d: usize) {
     }
 }
 
+/// f(x) has just been evaluated for the value in register `reg` (same group): evaluate f on a neighbour that
+/// shares the HIGH WORD of x but has another low word, then f(x) again.  The accuracy contract is evaluated on
+/// the neighbour right after a call with the same high word, and the determinism memo demands that the second
+/// f(x) reproduces the first: a cache / memoised reduction keyed on part of the argument shows up as either.
+fn neighbour_replay(m: &mut M, r: &mut Rng, fam: &str, ops: &[&str], reg: usize) {
+    let x = m.tf(reg);
+    if !x.hi().is_finite() || x.hi() == 0.0 {
+        return;
+    }
+    for _ in 0..4 {
+        let lo2 = match r.below(4) {
+            0 => -x.lo(),
+            1 => 0.0,
+            2 => x.lo() * 0.5,
+            _ => lo_candidate(r, x.hi()),
+        };
+        if lo2.to_bits() != x.lo().to_bits() && m.load(7, x.hi(), lo2) {
+            for op in ops {
+                m.call(fam, op, "inh", Some(6), &[A::R(7)]);
+            }
+            for op in ops {
+                m.call(fam, op, "inh", Some(6), &[A::R(reg)]);
+            }
+            return;
+        }
+    }
+}
+
 pub fn trig(m: &mut M, r: &mut Rng, n: u64) {
     for i in 0..n {
         m.group("trig");
@@ -484,6 +518,9 @@ pub fn trig(m: &mut M, r: &mut Rng, n: u64) {
         m.call("elem", "cos", *r.pick(&SP2), Some(2), &[A::R(0)]);
         m.call("elem", "sin_cos", *r.pick(&SP2), Some(3), &[A::R(0)]);
         m.call("elem", "tan", *r.pick(&SP2), Some(4), &[A::R(0)]);
+        if i % 3 == 0 {
+            neighbour_replay(m, r, "elem", &["sin", "cos", "tan", "sin_cos"], 0);
+        }
         if i % 40 == 0 {
             let (op1, a1, b1) = *r.pick(&[("new_add", f64::INFINITY, 1.0), ("new_add", f64::NAN, 1.0), ("new_mul", 1e300, 1e300)]);
             m.call("arith", op1, "inh", Some(5), &[A::F(a1), A::F(b1)]);
@@ -742,6 +779,10 @@ pub fn elem_all(m: &mut M, r: &mut Rng, n: u64) {
         for op in ["exp", "exp2", "exp_m1", "ln", "log2", "log10", "ln_1p", "sqrt", "cbrt", "sin", "cos", "tan", "sin_cos",
                    "asin", "acos", "atan", "sinh", "cosh", "tanh", "asinh", "acosh", "atanh"] {
             m.call("elem", op, "inh", Some(1), &[A::R(0)]);
+        }
+        if i % 5 == 1 {
+            neighbour_replay(m, r, "elem", &["exp", "exp2", "exp_m1", "ln", "log2", "log10", "ln_1p", "sqrt", "cbrt", "sin", "cos", "tan",
+                                             "asin", "acos", "atan", "sinh", "cosh", "tanh", "asinh", "acosh", "atanh"], 0);
         }
         if i % 4 == 0 {
             let h2 = sgn(r) * log_uniform(r, -3, 3);
